@@ -19,7 +19,7 @@ from concurrent.futures import ProcessPoolExecutor
 REPO = os.environ.get('VERIF_REPO', '/repo')
 VERIF = os.path.dirname(os.path.dirname(os.path.abspath(__file__)))
 CACHE = os.path.join(VERIF, '.cache')
-FRONTEND_VERSION = '7'
+FRONTEND_VERSION = '8'
 
 
 class AnalysisBroken(Exception):
@@ -452,6 +452,42 @@ def _preprocess_lines(args):
     return unit, cc, seen
 
 
+def _macros(flags):
+    """object-like macros of the public headers with integer values (error codes, flags)"""
+    src = '#include <uriparser/Uri.h>\n#include <limits.h>\n'
+    p = subprocess.run(['clang', '-dM', '-E', '-x', 'c', '-w'] + flags + ['-'], input=src, capture_output=True, text=True)
+    out = {}
+    if p.returncode != 0:
+        raise AnalysisBroken('macro dump failed: %s' % p.stderr[-500:])
+    raw = {}
+    for l in p.stdout.splitlines():
+        m = re.match(r'#define (\w+) (.+)$', l)
+        if m:
+            raw[m.group(1)] = m.group(2).strip()
+    def ev(v, depth=0):
+        v = v.strip()
+        while v.startswith('(') and v.endswith(')'):
+            v = v[1:-1].strip()
+        m = re.match(r'^(-?\d+)[uUlL]*$', v)
+        if m:
+            return int(m.group(1))
+        m = re.match(r'^(0[xX][0-9a-fA-F]+)[uUlL]*$', v)
+        if m:
+            return int(m.group(1), 16)
+        m = re.match(r'^(\d+)\s*<<\s*(\d+)$', v)
+        if m:
+            return int(m.group(1)) << int(m.group(2))
+        if v in raw and depth < 5:
+            return ev(raw[v], depth + 1)
+        return None
+    for k, v in raw.items():
+        if k.startswith('URI_') or k in ('INT_MAX',):
+            x = ev(v)
+            if x is not None:
+                out[k] = x
+    return out
+
+
 class Program(object):
     """All reduced units plus indexes."""
 
@@ -585,6 +621,7 @@ def load_program(verbose=False, check_pp=True):
                 'key': key}
         sys.setrecursionlimit(10000)
         prog = Program(units, flags, tus, meta)
+        prog.macros = _macros(flags)
         tmp = cpath + '.%d.tmp' % os.getpid()
         with open(tmp, 'wb') as f:
             pickle.dump(prog, f, protocol=pickle.HIGHEST_PROTOCOL)
